@@ -219,18 +219,26 @@ def popBoundaryLig (f : Nat) (skipped : List Item) (lbStart : Bool) : List Item 
   | some (.lig _ g orig lb _) => if lb && orig.isEmpty && g == f then (skipped.dropLast, true) else (skipped, lbStart)
   | _ => (skipped, lbStart)
 
-/-- `hyphenate_impl`: the list after the pass (`none` = panic or hang inside a word). `liang` gives
-the raw Liang positions of a word's letters. Same traversal as `scan`. -/
-def hyphList (eng : Engine) (lhm rhm : Int) (liang : List Nat → List Nat) : Nat → List Item → Option (List Item)
-  | 0, l => some l
+/-- How one word is rebuilt: font, letters, `right_boundary_override`, `disable_left_boundary`,
+positions ↦ the nodes that replace it (marked `true`: inserted discretionary). -/
+abbrev Rebuilder := Nat → List Nat → Option Nat → Bool → List Nat → Option (List (Item × Bool))
+
+def unmarkedL (l : List Item) : List (Item × Bool) := l.map (fun x => (x, false))
+
+/-- `hyphenate_impl`, generic in the way a word is rebuilt: the list after the pass, every node
+marked (`true` = inserted discretionary); `none` = panic or hang inside a word. `liang` gives the
+raw Liang positions of a word's letters. Same traversal as `scan`. -/
+def hyphListG (rb : Rebuilder) (lhm rhm : Int) (liang : List Nat → List Nat) :
+    Nat → List Item → Option (List (Item × Bool))
+  | 0, l => some (unmarkedL l)
   | _, [] => some []
   | fuel + 1, x :: xs =>
-    if !x.isGlue then (hyphList eng lhm rhm liang fuel xs).map (x :: ·)
+    if !x.isGlue then (hyphListG rb lhm rhm liang fuel xs).map ((x, false) :: ·)
     else
       let r := seek false xs 0
       let skipped := xs.take r.1
       let rest := xs.drop r.1
-      let cont := (hyphList eng lhm rhm liang fuel rest).map (fun t => x :: skipped ++ t)
+      let cont := (hyphListG rb lhm rhm liang fuel rest).map (fun t => (x, false) :: unmarkedL skipped ++ t)
       match r.2 with
       | none => cont
       | some f =>
@@ -242,13 +250,27 @@ def hyphList (eng : Engine) (lhm rhm : Int) (liang : List Nat → List Nat) : Na
           if pos.isEmpty then cont
           else
             let pb := popBoundaryLig f skipped (startsWithLB rest.head?)
-            match rebuildWord eng f g.1 (rboOf f (rest.drop g.2).head?) (!pb.2) pos with
+            match rb f g.1 (rboOf f (rest.drop g.2).head?) (!pb.2) pos with
             | none => none
             | some w =>
-              (hyphList eng lhm rhm liang fuel (rest.drop g.2)).map (fun t => x :: pb.1 ++ w.map (·.1) ++ t)
+              (hyphListG rb lhm rhm liang fuel (rest.drop g.2)).map
+                (fun t => (x, false) :: unmarkedL pb.1 ++ w ++ t)
+
+/-- The pass as coded: words are rebuilt by `rebuildWord`. -/
+def hyphList (eng : Engine) := hyphListG (rebuildWord eng)
 
 def hyphenateM (eng : Engine) (lhm rhm : Int) (liang : List Nat → List Nat) (l : List Item) : Option (List Item) :=
-  hyphList eng lhm rhm liang (l.length + 1) l
+  (hyphList eng lhm rhm liang (l.length + 1) l).map (fun o => o.map (·.1))
+
+/-- A word replaced by its main run only (no discretionaries). -/
+def mainRunWord (eng : Engine) : Rebuilder :=
+  fun font s rbo dlb _ => some (unmarkedL (((eng.run dlb rbo s).map (·.1)).map (toItem font)))
+
+/-- The list with every word the pass rebuilds replaced by its main lig/kern run: what the output
+is "modulo the inserted discretionaries". It equals the input whenever the main run of each
+rebuilt word reproduces the word's nodes (always, except for the boundary artefacts C14-f/g/i). -/
+def unbrokenM (eng : Engine) (lhm rhm : Int) (liang : List Nat → List Nat) (l : List Item) : Option (List Item) :=
+  (hyphListG (mainRunWord eng) lhm rhm liang (l.length + 1) l).map (fun o => o.map (·.1))
 
 /-! ## Which positions get a discretionary (specification of C14-h) -/
 
